@@ -59,6 +59,8 @@ def replay(rep):
     """Re-execute the concrete input of a replay file against the REAL code of the current tree.  -> True when the violation is reproduced."""
     ci = rep.get('concrete_input')
     pid = rep['property']
+    if isinstance(ci, dict) and isinstance(ci.get('property'), str) and ci['property'].startswith('C'):
+        pid = ci['property']        # a case found through an included property replays under that property's scenarios
     if isinstance(ci, dict) and (ci.get('scenario') or ci.get('suite') or ci.get('ciphersuite')):
         tmp = os.path.join(VERIF, 'build', 'replay-%s-%d.json' % (pid, os.getpid()))
         os.makedirs(os.path.dirname(tmp), exist_ok=True)
